@@ -208,9 +208,10 @@ def main():
             if quick and variant == "re" and n_ == 2:
                 continue
             items.append(("amplitude_again", variant, False, n_, (sp_, i0_, i1_), (2, 2)))
+    # fourth order expectation value: first order with two overlap factors in the norm factor (the
+    # same overlap twice in one Taylor term: each factor needs its own contracted indices)
+    items.append(("expec", "mp", False, 4, 1, (2, 2)))
     if not quick:
-        # fourth order expectation value: first order with two overlap factors in the norm factor
-        items.append(("expec", "mp", False, 4, 1, (2, 2)))
         items.append(("expec", "mp", True, 4, 1, (2, 2)))
     results = pmap(run_case, items, limit=900 if quick else 3600, workers=14)
     guards = [0, 0]
@@ -260,7 +261,7 @@ def main():
         {"function": "reference: vlib/pt.py on vlib/detref.py bit strings"}]
     run.cov["bounds"] = {
         "models": [f"{a_}o{b_}v" for a_, b_ in models],
-        "orders": f"energies <= {max_order + (0 if quick else 1)} (order 4 only in 2o2v), amplitudes/residuals <= {max_order}, expectation values <= {max_order}, operator rank 1 and 2",
+        "orders": f"energies <= {max_order + (0 if quick else 1)} (order 4 only in 2o2v), amplitudes/residuals <= {max_order}, expectation values <= {max_order} (and the fourth-order one-particle expectation value, mp, 2o2v), operator rank 1 and 2",
         "classes": "singles, doubles, triples (where the model has them); quadruples need 4o4v and are outside",
         "z3_timeout_ms": TIMEOUT}
     run.cov["rule"] = "one case per (API call, model); non-trivial = non-zero derived expression"
